@@ -62,7 +62,7 @@ pub fn c13(ctx: &Ctx, subj: &dyn DynSubject, ty: &Ty, rep: &mut Report) {
         let cuts = ks(len, &mut ent, &enc.boundaries, budget);
         log.nontrivial = cuts.iter().any(|k| *k > 0);
         for &k in &cuts {
-            for (si, sched) in [WriteSchedule::FailAt { k, kind: io::ErrorKind::Other }, WriteSchedule::ZeroAt { k }].into_iter().enumerate() {
+            for (si, sched) in [WriteSchedule::FailAt { k, kind: io::ErrorKind::Other }, WriteSchedule::ZeroAt { k }, WriteSchedule::FailOnce { k }].into_iter().enumerate() {
                 if si == 1 && k % 3 != 0 {
                     continue;
                 }
@@ -72,6 +72,7 @@ pub fn c13(ctx: &Ctx, subj: &dyn DynSubject, ty: &Ty, rep: &mut Report) {
                     _ => Some(64),
                 };
                 let what = format!("{:?} (buffered: {:?})", sched, buffered);
+                let one_shot = matches!(sched, WriteSchedule::FailOnce { .. });
                 let (r, acc, src) = run(sched, buffered)?;
                 log.extra_evals += 1;
                 if k > 0 {
@@ -82,7 +83,8 @@ pub fn c13(ctx: &Ctx, subj: &dyn DynSubject, ty: &Ty, rep: &mut Report) {
                     Err(e) => return Err(Fail::new("write-fault-wrong-error", format!("{}: returned {} instead of WriteError", what, e)).env(json!({"schedule": what}))),
                     Ok(n) => return Err(Fail::new("write-fault-success", format!("{}: serialization reported success ({} bytes) although the writer failed", what, n)).env(json!({"schedule": what}))),
                 }
-                if acc.len() > k || !prefix_masked(&enc, &acc, &bytes) {
+                // (a one-shot fault lets a buffered sink deliver the rest of its buffer when it is dropped: still a prefix)
+                if (acc.len() > k && !one_shot) || !prefix_masked(&enc, &acc, &bytes) {
                     return Err(Fail::new("write-fault-not-prefix", format!("{}: the {} bytes accepted by the writer are not a prefix of the fault-free stream", what, acc.len())).env(json!({"schedule": what})));
                 }
                 check_src(&src, &what)?;
